@@ -185,6 +185,7 @@ pub fn in_shuttle<R: Send + 'static>(seed: u64, f: impl Fn() -> R + Send + Sync 
     cfg.silence_warnings = true;
     let res = crate::run::guarded(move || {
         let body = move || {
+            let _scope = crate::ctl::ShuttleScope::enter();
             let v = f();
             *out2.lock().unwrap() = Some(v);
         };
